@@ -261,10 +261,12 @@ class FactorSet(object):
             variables_to_be_marginalized = list(
                 set(factor.scope()).intersection(variables)
             )
+            # Factors hash by value: take the factor out of the set while it changes.
+            factor_set.remove_factors(factor)
             if inplace:
                 factor.marginalize(variables_to_be_marginalized, inplace=True)
+                factor_set.add_factors(factor)
             else:
-                factor_set.remove_factors(factor)
                 factor_set.add_factors(
                     factor.marginalize(variables_to_be_marginalized, inplace=False)
                 )
